@@ -217,6 +217,12 @@ fn check_value(model: &Json, stats: &mut Stats) -> Verdict {
     if t1 != t2 {
         return fail("C20:from_str:type", format!("`{printed}`: type {} became {}", t1.print(), t2.print()));
     }
+    // "the same type" also in the implementation's own eyes (its `==` on types, both ways round)
+    match run::guarded(|| (v.as_type() == back.as_type(), back.as_type() == v.as_type(), v.as_type().matches(&back.as_type()) && back.as_type().matches(&v.as_type()))) {
+        Ok((true, true, true)) => {}
+        Ok(_) => return fail("C20:from_str:type-eq", format!("`{printed}` reads back as a value whose type has the structure of the original's ({}) but is not `==` to it (or does not match it both ways)", t1.print())),
+        Err(c) => return fail(format!("C20:from_str:{}", c.sig()), format!("comparing the types of `{printed}` and of what it reads back as panicked")),
+    }
     // (b) as a program (MIN_INT's magnitude is not an int literal)
     if !lit::contains_int(model, i64::MIN) {
         stats.eval();
@@ -231,6 +237,9 @@ fn check_value(model: &Json, stats: &mut Stats) -> Verdict {
                 let t3 = Ty::from_real(&p.as_type());
                 if t3 != t1 {
                     return fail("C20:program:type", format!("the program `{printed}` has a value of type {} instead of {}", t3.print(), t1.print()));
+                }
+                if !run::guarded(|| p.as_type() == v.as_type() && v.as_type() == p.as_type()).unwrap_or(false) {
+                    return fail("C20:program:type-eq", format!("the program `{printed}` has a value whose type has the structure of the original's ({}) but is not `==` to it", t1.print()));
                 }
             }
             o => return fail(format!("C20:program:{}", o.panic_sig().unwrap_or("outcome".into())), format!("the program `{printed}`: {}", o.short())),
@@ -492,6 +501,18 @@ pub fn run(session: &Session) -> i32 {
         cases.push(json!({"kind": "value", "value": lit::tuple((0..n as i64).map(|k| if k % 2 == 0 { json!(k) } else { json!(format!("s{k}")) }).collect())}));
         cases.push(json!({"kind": "value", "value": (0..n).map(|k| json!(format!("w{k}\n"))).collect::<Vec<Json>>()}));
         cases.push(json!({"kind": "value", "value": (0..n).map(|k| lit::float(k as f64 * 0.5)).collect::<Vec<Json>>()}));
+    }
+    // long renderings whose strings contain the separators of the rendering itself (`, `, brackets, quotes)
+    for n in [12usize, 40, 150] {
+        cases.push(json!({"kind": "value", "value": (0..n).map(|k| json!(format!("Surname{k}, Name{k}"))).collect::<Vec<Json>>()}));
+        cases.push(json!({"kind": "value", "value": [json!((0..n).map(|k| format!("item {k}, ")).collect::<String>()), json!(n as i64)]}));
+        cases.push(json!({"kind": "value", "value": lit::tuple((0..n).map(|k| if k % 3 == 0 { json!(format!("a, [b], (c, \"d\") {k}")) } else { json!(k as i64) }).collect())}));
+    }
+    // nested mixed arrays: types with unions inside unions inside unions
+    for v in [json!([[[1, lit::float(1.5)], [2]], 0]), json!([[[1, "a"], ["b"]], true]), json!([[[[1, lit::float(2.5)], ["s"]], [[true]]], [Json::Null]]), json!([lit::tuple(vec![json!([1, "a"]), json!(1)]), lit::tuple(vec![json!([lit::float(1.5)]), json!("s")])])] {
+        for _ in 0..12 {
+            cases.push(json!({"kind": "value", "value": v.clone()}));
+        }
     }
     for side in [4usize, 7, 9] {
         let cube: Vec<Json> = (0..side).map(|a| json!((0..side).map(|b| json!((0..side).map(|c| lit::tuple(vec![json!((a * side + b) as i64), json!(format!("{c}"))])).collect::<Vec<Json>>())).collect::<Vec<Json>>())).collect();
